@@ -66,6 +66,12 @@ def make_case(rng, kind):
         t['PinModel'] = dict(gap_thickness=0.0, clad_material='ht9', r_frac=[0.0, 0.5], pin_material=['ss316', 'ht9'])
     elif kind == "dump":
         case['setup']['Dump'] = dict(coolant=True, average=True)
+    elif kind == "planes":
+        # optional list-valued keys of the input: requested axial planes, unrodded regions, spacer grids
+        case['setup']['axial_plane'] = sorted(round(rng.uniform(0.01, 0.09), 4) for _ in range(rng.choice([2, 3])))
+        gi.add_axial_regions(rng, case, 't0')
+        if not t.get('use_low_fidelity_model'):
+            t['SpacerGrid'] = dict(loss_coeff=1.2, axial_positions=[0.04, 0.05])
     elif kind == "hotspot":
         t['FuelModel'] = dict(FUEL)
         t['Hotspot'] = {'clad': dict(temperature='clad_mw', input_sigma=3, output_sigma=2, subfactors='fftf_clad_mw')}
@@ -80,7 +86,7 @@ def outputs_of(r):
 def oracle_input(ctx, rng, n):
     import dassh
     for ci in range(n):
-        kind = ["plain", "fuel", "pin", "dump", "hotspot"][ci % 5]
+        kind = ["planes", "plain", "fuel", "pin", "dump", "hotspot"][ci % 6]
         case = make_case(rng, kind)
         d = str(ctx.work / ("r%d" % ci))
         path = gi.write_case(case, d)
@@ -176,7 +182,7 @@ def run_main(case, d, n_tp, parallel, only=None):
 
 def oracle_main(ctx, rng, n):
     for ci in range(n):
-        kind = rng.choice(["plain", "fuel", "dump"])
+        kind = rng.choice(["plain", "fuel", "dump", "planes"])
         case = make_case(rng, kind)
         n_tp = rng.choice([2, 3])
         base = str(ctx.work / ("m%d" % ci))
@@ -212,10 +218,10 @@ def oracle_main(ctx, rng, n):
 
 def run(ctx):
     rng = random.Random(16000 + ctx.seed)
-    ctx.rule = ("inputs: plain / FuelModel / PinModel / dump request / hot-spot request; per input: fingerprint before/after "
+    ctx.rule = ("inputs: plain / requested planes + regions + grids / FuelModel / PinModel / dump request / hot-spot request; per input: fingerprint before/after "
                 "Reactor(...), second construction, fresh execution; dassh main with 2-3 time points serial vs parallel vs alone")
     ctx.prove("Dassh.Props.C16")
-    oracle_input(ctx, rng, 15 if ctx.thorough else 5)
+    oracle_input(ctx, rng, 18 if ctx.thorough else 6)
     oracle_main(ctx, rng, 4 if ctx.thorough else 1)
     ctx.nontrivial = ctx.evals
     ctx.traces = ctx.evals
